@@ -4,12 +4,65 @@ SPEC = dict(
     lean_props="SymVerif.Props.C34",
     driver="C34",
     harness="c34.cpp",
-    theorems=[],
-    rule="",
-    not_covered=[],
-    assumptions=[],
-    level_text="",
-    level_note="",
-    technique="",
-    partial=[],
+    theorems=[
+        # the Assumptions constructor
+        "SymVerif.C34.assumptions_sound",
+        # ZeroVisitor
+        "SymVerif.C34.is_zero_sound_true",
+        "SymVerif.C34.is_zero_sound_false",
+        "SymVerif.C34.is_nonzero_sound_true",
+        "SymVerif.C34.is_nonzero_sound_false",
+        # sign visitors
+        "SymVerif.C34.is_positive_sound_true",
+        "SymVerif.C34.is_positive_sound_false",
+        "SymVerif.C34.is_negative_sound_true",
+        "SymVerif.C34.is_negative_sound_false",
+        "SymVerif.C34.is_nonnegative_sound_true",
+        "SymVerif.C34.is_nonnegative_sound_false",
+        "SymVerif.C34.is_nonpositive_sound_true",
+        "SymVerif.C34.is_nonpositive_sound_false",
+        # IntegerVisitor
+        "SymVerif.C34.is_integer_sound_true",
+        "SymVerif.C34.is_integer_sound_false",
+        # RealVisitor / ComplexVisitor / FiniteVisitor: the informative direction on real-valued semantics
+        "SymVerif.C34.is_real_sound_false",
+        "SymVerif.C34.is_complex_sound_false",
+        "SymVerif.C34.is_finite_sound_false",
+        "SymVerif.C34.is_infinite_sound_true",
+        # get_args() vs. semantics (the lemmas every container rule rests on)
+        "SymVerif.C34.evalR_add_args",
+        "SymVerif.C34.evalR_mul_args",
+    ],
+    rule="q <query> (A <statements>) <expr>: 15 queries x random assumption sets (per symbol: none/complex/real/rational/"
+         "integer x none/>0/<0/>=0/<=0/==0/!=0/two-sided/other numeric bounds; 4% inconsistent sets) x expressions "
+         "(55% targeted at the combination rules: linear combinations, products, powers, one-argument functions, sums of "
+         "constants; 35% random trees of depth 1-4 incl. Gaussian rationals, radicals, symbolic exponents, a few floats / "
+         "infinities; leaves; Set/Relational/Boolean objects for the throwing paths). distinct = distinct op lines; "
+         "non-trivial = all but the tags trivial-*; the answer distribution (T/F/I per query) is in impl_stats",
+    not_covered=["is_even / is_odd / is_polynomial (model and theorems not written yet; see docs/C34.md)",
+                 "is_rational / is_irrational / is_algebraic / is_transcendental: modelled and compared on every run, "
+                 "oracle-checked, no theorem yet (irrationality of e and transcendence of pi, e are not in Mathlib)",
+                 "ComplexVisitor rules that build new function objects (tan, cot, sec, csc, atan, atanh, acot, acoth) and "
+                 "ZeroVisitor::bvisit(PrimePi): the driver answers SKIP:unmodelled",
+                 "ComplexVisitor::bvisit(Add/Mul) on dictionaries that contain both a false and an indeterminate entry: the "
+                 "answer depends on the hash order of the dictionary (driver: SKIP:unmodelled)",
+                 "values outside the reals (complex assignments, infinities): covered by the oracle only",
+                 "definedness: the theorems speak about assignments where the expression has a real value; answers at "
+                 "points where it is zoo/nan are judged by the oracle (known finding C34-undef)"],
+    assumptions=["vsexp::dump/parse (harness/sexp.h) faithfully transports the stored fields of the real objects",
+                 "inputs satisfy Queries.wf (canonical stored-field facts; the driver rejects other inputs with bad-op:wf, "
+                 "which would show up as a correspondence difference)"],
+    level_text="Lean theorems over an executable model of the tribool algebra, the Assumptions constructor and the visitors of "
+               "test_visitors.cpp: for every statement list, every assignment satisfying it, and every expression with a real "
+               "value, a definite answer of is_zero/is_nonzero/is_positive/is_negative/is_nonnegative/is_nonpositive/is_integer "
+               "is true of the value, and an expression declared non-real/non-complex/infinite has no real value. The model is "
+               "run against the real library on generated (query, assumptions, expression) triples every run; an independent "
+               "oracle evaluates the expression exactly at admissible rational/Gaussian points and tests the predicate.",
+    level_note="Semantics is real-valued (evalR): complex values, infinities and definedness are outside the theorems and are "
+               "covered by the oracle. Fuel: the recursive visitors run with fuel size(e)+1; running out of fuel yields "
+               "'indeterminate', about which nothing is claimed.",
+    technique="induction on fuel with ordered-field facts (sums of positives, integer closure), get_args()/value lemmas, "
+              "invariant proof for the Assumptions constructor (every elementary update is justified by its statement); "
+              "differential correspondence + exact-evaluation oracle",
+    partial=["is_rational/is_irrational, is_algebraic/is_transcendental, is_even/is_odd, is_polynomial: no theorem"],
 )
